@@ -48,6 +48,7 @@ type Contract struct {
 	Assumes   []Clause // extra assumptions at entry (listed in evidence)
 	Uses      []string // ghost lemma functions whose contracts are available as quantified facts
 	Decreases []Clause // termination measure for recursive functions
+	Options   map[string]bool // `option <name>`: engine switches for this function (e.g. heap-closedness)
 	Hints     []Hint   // `assert before <callee>@k e`: proved, then assumed, just before the k-th call of <callee>
 	Opaque    []string // spec functions never unfolded while verifying this function (their facts come from lemmas)
 	Calls     map[string]*Contract // `call <param>[.<method>] requires|ensures|modifies …`: contract of a function-typed parameter or of a method of an interface-typed parameter, as seen by this function
@@ -81,7 +82,7 @@ type SpecFunc struct {
 
 var clauseKeywords = map[string]bool{"func": true, "requires": true, "ensures": true, "modifies": true,
 	"loop": true, "pure": true, "trusted": true, "may_panic": true, "nullable": true, "dyn": true,
-	"callsite": true, "lemma": true, "assume": true, "pkgrule": true, "uses": true, "decreases": true, "invariant": true, "call": true, "opaque": true, "assert": true}
+	"callsite": true, "lemma": true, "assume": true, "pkgrule": true, "uses": true, "decreases": true, "invariant": true, "call": true, "opaque": true, "assert": true, "option": true}
 
 // rewriteImplies turns `a ==> b` into `implies(a, b)` (lowest precedence, right associative).
 func rewriteImplies(s string) string {
@@ -423,6 +424,13 @@ func parseContractText(lines []string, lineNos []int, file, pkgPath string) (*Co
 				return err
 			}
 			cur.Hints = append(cur.Hints, Hint{Callee: ck[0], K: k, C: c, Uses: uses})
+		case "option":
+			if cur.Options == nil {
+				cur.Options = map[string]bool{}
+			}
+			for _, n := range strings.Fields(text) {
+				cur.Options[n] = true
+			}
 		case "opaque":
 			for _, n := range strings.Fields(strings.ReplaceAll(text, ",", " ")) {
 				cur.Opaque = append(cur.Opaque, n)
